@@ -10,6 +10,7 @@ pub mod c04;
 pub mod c11;
 pub mod c12;
 pub mod c13;
+pub mod c14;
 pub mod c16;
 pub mod c20;
 
@@ -46,6 +47,10 @@ pub fn run(ctx: &mut Ctx) -> bool {
         "C13" => {
             ctx.rule = c13::RULE.into();
             c13::run(ctx)
+        }
+        "C14" => {
+            ctx.rule = c14::RULE.into();
+            c14::run(ctx)
         }
         "C16" => {
             ctx.rule = c16::RULE.into();
